@@ -214,6 +214,8 @@ def job_split_array_elems(Hc, Wc, mode):
         ok = got == want and [tuple(tl.shape) for tl in tiles] == wshape
         r, _ = core.check(base + [z3.BoolVal(not ok)], timeout_ms=30000)
         recs.append(q(name, r, tiles=len(tiles), tile=(tv, fv)))
+        if li == 0:
+            recs.append(q(name + ':twin', core.check(base + [z3.BoolVal(got != want[::-1] or len(want) < 2)], timeout_ms=30000)[0], expect='sat'))
         if r == 'sat' and nbad < 3:
             nbad += 1
             recs.append(cex(f'C19:split_array:{mode}:elements', f'{Hc}x{Wc} array, tiles {tv}x{fv}: the returned tiles are not the row-major partition (trim: exactly the full-size tiles): first tiles start at {[g[0] if g else None for g in got[:4]]}, expected {[w[0] for w in want[:4]]}',
